@@ -35,6 +35,10 @@ def find_sym(symbols, role):
     if m:
         name, k = m.group(1), int(m.group(2))
     idx = [i for i, s in enumerate(symbols) if s["name"] == name and s["kind"] not in LOOK]
+    if not idx:
+        # helper groups: ignore position captures and selection brackets inside the group's name
+        norm = lambda x: re.sub(r"<@[LR]>|[<> ]", "", x)
+        idx = [i for i, s in enumerate(symbols) if norm(s["name"]) == norm(name) and s["kind"] not in LOOK]
     if k is not None:
         return idx[k - 1] if len(idx) >= k else None
     return idx[0] if len(idx) == 1 else None
@@ -61,6 +65,8 @@ def captures_after(symbols, i):
 
 
 def L(a, j):
+    if j is None:
+        raise KeyError("anchor-missing: a symbol named by spec/wiring.json is not in production %s -> %s" % (a.nt, " ".join(s["name"] for s in a.symbols)))
     return a.labels[j]
 
 
